@@ -32,6 +32,19 @@ fn main() {
                 println!("{}", c.id());
             }
         }
+        "fuzzinfo" => {
+            // the random phases of a check (thorough tier), for the coverage-guided stage's driver
+            let c = checks::find(&args[2]).unwrap_or_else(|| usage());
+            let phases: Vec<serde_json::Value> = c
+                .phases(Tier::Thorough)
+                .iter()
+                .filter_map(|p| match p.kind {
+                    gv::engine::core::PhaseKind::Random { max_tape, .. } => Some(serde_json::json!({"name": p.name, "max_tape": max_tape})),
+                    _ => None,
+                })
+                .collect();
+            println!("{}", serde_json::json!({"id": c.id(), "random_phases": phases}));
+        }
         "check" => {
             if args.len() < 4 {
                 usage();
